@@ -395,6 +395,10 @@ def gen_history(L, K, rng, nsteps, allow_overlap=False):
                     (g.op_reserve(0, True) if f == g.op_emplace else g.op_emplace(0))
                 break
             r -= w
+        if g.stats.get("erase-overlap(known finding)"):
+            # the overlapping erase has clobbered live objects (known finding): whatever
+            # follows runs on corrupted counts in implementation and model alike
+            break
         if rng.random() < 0.1:
             g.lines.append("junk %d" % rng.choice([0, 85, 170, 255]))
     return g.finish(), g.stats
